@@ -6,6 +6,7 @@ the deterministic event loop, with a stub device/bearer recording what is transm
 import struct
 
 from vf.e1 import harness, untraced
+from vf import flags as _flags
 from vf import detloop
 from vf.props.gattstub import StubDevice, StubBearer, StubEnhancedBearer, make_server, feed, pdus
 
@@ -359,3 +360,6 @@ def indications_one_at_a_time(mtu: int, l1: int, o1: int, o2: int, o3: int, o4: 
                 confirmed += 1
             loop.run_ready()
         return all(t.done() and t.exception() is None for t in tasks)
+
+
+_flags.int_format_placeholder = True     # log f-strings with symbolic ints are not the subject here (see vf/flags.py)
